@@ -290,8 +290,10 @@ fn run_vault(plan: &Plan, lib: &dyn Lib, rec: &mut Rec) {
                 if let Some(j) = to_codec(rec, lib, g, s, Codec::Json).first() {
                     let n = j.len() as u64;
                     let k = match x.below(5) { 0 => 0, 1 => 1, 2 => n - 1, 3 => n / 2, _ => x.below(n) };
-                    let o = rec.call(lib, g, Op::EncodeInterrupted, &[&[s.ty as u8], &[s.codec as u8], &s.bytes, &u64b(k)]);
-                    rec.fault("caller-sink-fails-mid-encoding");
+                    // the sink returns an error, or panics (and the caller catches the unwind)
+                    let how = [x.below(2) as u8];
+                    let o = rec.call(lib, g, Op::EncodeInterrupted, &[&[s.ty as u8], &[s.codec as u8], &s.bytes, &u64b(k), &how]);
+                    rec.fault(if how[0] == 0 { "caller-sink-fails-mid-encoding" } else { "caller-sink-panics-mid-encoding" });
                     rec.expect("C15", "value-encodes", o.flag() == Some(true), || format!("{} | a sink that fails after {} of {} bytes: {:?}", s.ty.name(), k, n, o.kind()));
                 }
             }
@@ -679,6 +681,16 @@ fn run_byz_encoder(plan: &Plan, lib: &dyn Lib, rec: &mut Rec) {
                 rec.case(&[16, g as u64, 200, what.len() as u64, victim as u64], true);
                 let o = rec.call(lib, g, Op::SigFromShares, &set);
                 rec.expect("C16", "invalid-share-payload-reported-at-use", !o.is_ok(), || format!("{} Signature::from_shares | a share payload that is not a subgroup point was combined", what));
+                // the invalid share behind an unfilled slot of a pre-sized buffer (an all-zero container), at every position
+                let empty = vec![0u8; parts[0].len()];
+                let goods: Vec<&[u8]> = (0..3).filter(|i| *i != victim).map(|i| parts[i].as_slice()).collect();
+                for at in 0..=2usize {
+                    let mut set: Vec<&[u8]> = goods.clone();
+                    set.insert(at, empty.as_slice());
+                    set.push(f.as_slice());
+                    let o = rec.call(lib, g, Op::SigFromShares, &set);
+                    rec.expect("C16", "invalid-share-payload-reported-at-use", !o.is_ok(), || format!("{} Signature::from_shares | an invalid share payload behind an all-zero container at index {} was not reported", what, at));
+                }
                 let o = rec.call(lib, g, Op::PkShareVerify, &[&d.pk_shares[victim], &f, &msg]);
                 rec.expect("C16", "invalid-share-payload-reported-at-use", !o.is_ok(), || format!("{} PublicKeyShare::verify | a signature share that is not a subgroup point verified", what));
             }
@@ -692,6 +704,17 @@ fn run_byz_encoder(plan: &Plan, lib: &dyn Lib, rec: &mut Rec) {
                 let set: Vec<&[u8]> = (0..3).map(|i| if i == victim { f.as_slice() } else { d.pk_shares[i].as_slice() }).collect();
                 let o = rec.call(lib, g, Op::PkFromShares, &set);
                 rec.expect("C16", "invalid-share-payload-reported-at-use", !o.is_ok(), || format!("{} PublicKey::from_shares | a share payload that is not a subgroup point was combined", what));
+                {
+                    let empty = vec![0u8; d.pk_shares[0].len()];
+                    let goods: Vec<&[u8]> = (0..3).filter(|i| *i != victim).map(|i| d.pk_shares[i].as_slice()).collect();
+                    for at in 0..=2usize {
+                        let mut set: Vec<&[u8]> = goods.clone();
+                        set.insert(at, empty.as_slice());
+                        set.push(f.as_slice());
+                        let o = rec.call(lib, g, Op::PkFromShares, &set);
+                        rec.expect("C16", "invalid-share-payload-reported-at-use", !o.is_ok(), || format!("{} PublicKey::from_shares | an invalid share payload behind an all-zero container at index {} was not reported", what, at));
+                    }
+                }
                 let o = rec.call(lib, g, Op::PkShareVerify, &[&f, &parts[victim], &msg]);
                 rec.expect("C16", "invalid-share-payload-reported-at-use", !o.is_ok(), || format!("{} PublicKeyShare::verify | a public-key share that is not a subgroup point verified", what));
                 let fd = forge(&ds[victim]);
